@@ -583,3 +583,10 @@ V('tj5-raw-str', ['C15'], SH, "        ret = ret.encode('utf-8', 'replace').deco
 V('th8-attribute-br', ['C15', 'C16'], GH, "        return protect_html(s).replace('<br>\\n', '\\n')", "        return protect_html(s)", 'TH8')
 V('ls1m-sticky-path', ['C13', 'C12', 'C01'], T2, "    if opts.repl and main_lang in ml:\n        for part in ml[main_lang]:\n            part[0], part[1] = utils.replace_phrases(part[0], part[1],\n                                                        opts.repl)\n    for lang in ml:\n        for part in ml[lang]:\n            part[1]= list(n + 1 for n in part[1])",
   "    for lang in ml:\n        for part in ml[lang]:\n            txt, pos = part\n            if opts.repl and lang == main_lang:\n                txt, pos = utils.replace_phrases(txt, pos, opts.repl)\n            part[0] = txt\n            part[1] = list(n + 1 for n in part[1])", 'LS1m')
+V('dt1-verb-late', ['C03', 'C08'], P, "            elif type(tok) is defs.VerbatimToken:\n                # NB: test before the texts below; verbatim text like '$' or '{'\n                #     is not markup\n", "            elif type(tok) is defs.VerbatimToken and tok.environ:\n", 'DT1')
+V('st1-no-star', ['C03', 'C09'], PA, "args='*AOAO', repl=hs.h_newtheorem)", "args='AOAO', repl=hs.h_newtheorem)", 'ST1')
+V('sig1-minipage', ['C03'], PA, "        Environ(self, 'minipage', args='OOOA'),", "        Environ(self, 'minipage', args='A'),", 'SIG1')
+V('sig1-neutral-more', ['C03'], PA, "        Environ(self, 'tabular', args='OA', add_pars=False),", "        Environ(self, 'tabular', args='OOA', add_pars=False),", [])
+V('df2-keep-flows', ['C03', 'C18'], P, "            del self.extracted[n_extracted:]\n", "", 'DF2')
+V('df2-rebind', ['C03', 'C18'], P, "            del self.extracted[n_extracted:]\n", "            self.extracted = self.extracted[:n_extracted]\n", ['EXW'])
+V('sbl1-def-unguarded', ['C03', 'C09'], P, "        if name in self.parms.newcommand_ignore:\n            # as for \\newcommand\n            return [defs.ActionToken(start)]\n", "", 'SBL1')
